@@ -16,6 +16,10 @@ Over the tables **regenerated from the working tree on every run** (`Gen.Dict`: 
 * `dict_lookup_is_map_lookup` — name-indexed keys are pairwise distinct (strictly sorted dump), so the
   model's first-match `lookup` is the Go map lookup whatever the iteration order was.
 * `dict_no_grease_name` — no code point is spelled `"GREASE"` (so the JSON spelling of GREASE is unambiguous).
+* `aliases_as_expected` — `dict_consistent` only speaks about names that occur in a value-indexed table;
+  the remaining names (aliases such as `delegated_credential`) are pinned against the hand-written
+  expectation table `Dict.expectedAliases` (registry names): every regenerated alias row is expected and
+  has the expected code point.
 * `packName_injective` — packing names into `Nat` loses nothing.
 * `json_names_eq_raw` — one name list of the JSON format: decoding the names a list of code points is
   rendered to gives those code points back (GREASE values as `GREASE_PLACEHOLDER`, exactly
@@ -60,6 +64,17 @@ theorem dict_lookup_is_map_lookup :
 theorem dict_no_grease_name : ∀ p ∈ Gen.Dict.pairs, ∀ r ∈ p.1, r.2 ≠ greaseName := by
   intro p hp
   exact noGreaseName_rows p.1 ((List.all_eq_true.mp all_noGrease) p hp)
+
+private theorem all_aliasesOk : aliasesOk Gen.Dict.aliases = true := by decide +kernel
+
+/-- **alias names map to the intended code points.** Every name-indexed row whose name is not the
+canonical name of its value (regenerated from the working tree) is an alias the hand-written
+expectation table `Dict.expectedAliases` knows, with exactly the expected code point. -/
+theorem aliases_as_expected :
+    ∀ r ∈ Gen.Dict.aliases, expectedAlias expectedAliases r.1 r.2.1 = some r.2.2 := by
+  intro r hr
+  have := (List.all_eq_true.mp all_aliasesOk) r hr
+  simpa using this
 
 theorem packName_injective (a b : List UInt8) (h : packName a = packName b) : a = b :=
   Dict.packName_injective a b h
@@ -115,6 +130,11 @@ theorem json_order_eq_raw (s : Shape) (d : JDoc) (hr : renderJson genTables s = 
 -- a row of the repaired table (D17): HandshakeType 7 "Unassigned" resolves back to 7
 example : lookup Gen.Dict.HandshakeType_n (packName "Unassigned".toUTF8.toList) = some 7 := by decide +kernel
 example : (7, packName "Unassigned".toUTF8.toList) ∈ Gen.Dict.HandshakeType_v := by decide +kernel
+
+-- the IETF alias of extension 34 resolves to 34, and so does the IANA spelling
+example : lookup Gen.Dict.ExtType_n (packName "delegated_credential".toUTF8.toList) = some 34 := by decide +kernel
+example : lookup Gen.Dict.ExtType_n (packName "delegated_credentials".toUTF8.toList) = some 34 := by decide +kernel
+example : Gen.Dict.aliases.length = 3 := by decide
 
 -- a Chrome-like hello: GREASE suite, GREASE extension, supported_groups with GREASE, key_share, versions
 private def demo : Shape :=
